@@ -75,7 +75,7 @@ prop( 'C03', [ 'W-ATTR', 'D-VALIDATE', 'R-SNAPSHOT', 'D-TYPE', 'T-TYPENAMES', 'T
       not_decided='read-your-writes over request histories, slice index arithmetic, symbolic-name resolution, per-element isolation (value/history dependent).',
       technique='who-may-write analysis via service feasibility on the CFG; AST shape checks; table checks' )
 
-prop( 'C06', [ 'X-SERVICES', 'P-REPLYBIT', 'P-ONE', 'P-PROCEED', 'D-ECHO', 'S-STATUS', 'P-ROUTE', 'E-REPLY', 'T-CONTEXT', 'P-EACH', 'U-NULLADDR' ],
+prop( 'C06', [ 'X-SERVICES', 'P-REPLYBIT', 'P-ONE', 'P-PROCEED', 'D-ECHO', 'S-STATUS', 'P-ROUTE', 'E-REPLY', 'T-CONTEXT', 'P-EACH', 'U-NULLADDR', 'R-REENTRANT' ],
       decides='X-SERVICES: for Object, Message_Router, Connection_Manager and Logix the registered service parsers, the services '
               'request() dispatches and the services produce() encodes agree, and every *_RPY constant is *_REQ | 0x80; '
               'P-REPLYBIT: on every path of every handler to the reply producer the reply bit is set at most once, exactly once on '
@@ -202,7 +202,7 @@ prop( 'C07', [ 'A-OFFSETS', 'P-ORDER', 'P-EACH', 'P-CLOSURE', 'R-LOCK-5', 'R-LOC
       not_decided='equality of each member\'s reply with its standalone reply, and of the resulting tag state (dynamic).',
       technique='linear normalisation of offset arithmetic; iteration/accumulation idiom pairing; per-iteration effect counting on the CFG' )
 
-prop( 'C08', [ 'G-PROGRESS', 'G-BOUND', 'G-REF', 'R-PROGRESS', 'R-LIMIT', 'E-CONTAIN', 'R-ISO', 'S-STATUS', 'W-ATTR', 'D-VALIDATE', 'T-ALLOWED', 'G-PRIMS', 'G-INIT', 'P-ACT', 'P-CLOSURE', 'G-EXACT', 'P-ONCE', 'U-NULLADDR', 'G-PEEK', 'W-ASSERT' ],
+prop( 'C08', [ 'G-PROGRESS', 'G-BOUND', 'G-REF', 'R-PROGRESS', 'R-LIMIT', 'E-CONTAIN', 'R-ISO', 'S-STATUS', 'W-ATTR', 'D-VALIDATE', 'T-ALLOWED', 'G-PRIMS', 'G-INIT', 'P-ACT', 'P-CLOSURE', 'G-EXACT', 'P-ONCE', 'U-NULLADDR', 'G-PEEK', 'W-ASSERT', 'R-REENTRANT', 'P-ONE' ],
       decides='P-ACT / P-CLOSURE (no tag is altered except through a COMPLETE request): the server hands a frame to the processor only after the framing engine finished (no exit from the parse loop on EOF), and a member of a Multiple Service Packet joins the list of requests to execute only after its own parse was asserted terminal.  termination-shape, containment and no-corruption clauses.  G-PROGRESS: in every extracted grammar level (all 25 registered '
               'service machines and 28 stand-alone machines) there is no cycle of non-consuming states, every data-counted repeat consumes '
               '>= 1 symbol per cycle, every sub-machine has a terminal state; G-BOUND/G-REF: every unbounded consumer lies inside a limit '
@@ -228,7 +228,7 @@ prop( 'C10', [ 'G-BOUND', 'G-REF', 'R-LIMIT', 'R-SENT', 'R-REPEAT', 'G-PRIMS', '
       technique='reference resolution over extracted grammar graphs; boundedness analysis with a consumption model; AST idiom matching and '
                 'CFG effect counting on the framework' )
 
-prop( 'C09', [ 'R-LOCK-1', 'R-LOCK-6', 'R-LOCK-2', 'R-LOCK-3', 'R-LOCK-4', 'R-LOCK-5', 'R-ISO', 'R-SNAPSHOT', 'P-CLOSURE', 'G-INIT', 'R-STATELESS' , 'P-ROUTE', 'T-TAGLOOP', 'W-CLASSSTATE' ],
+prop( 'C09', [ 'R-LOCK-1', 'R-LOCK-6', 'R-LOCK-2', 'R-LOCK-3', 'R-LOCK-4', 'R-LOCK-5', 'R-ISO', 'R-SNAPSHOT', 'P-CLOSURE', 'G-INIT', 'R-STATELESS' , 'P-ROUTE', 'T-TAGLOOP', 'W-CLASSSTATE', 'R-REENTRANT' ],
       decides='P-ROUTE ( replies only to one\'s own requests, gateway case ): every check of a routed response lies inside the try whose handler drops the shared route connection, so a timed-out response is never left in flight for the next session.  T-TAGLOOP also: main() finds a tag already configured at the same address by its resolved ( class, instance, attribute ), so two names for one attribute share ONE Attribute object.  R-SNAPSHOT also: a vector is written in place - its storage list is never re-bound ( no copy-modify-install ).  lock-discipline clauses.  R-LOCK-1: every <m>.run( source=... ) on a state machine outside automata.py happens while <m> is '
               'held by an enclosing `with ... as <m>` (client.__next__\'s self.frame.run is dominated by self.frame.safe() in a class whose '
               '__enter__/__exit__ delegate to the frame) - covers every interleaving of every number of sessions; R-LOCK-2: class-level '
